@@ -2,7 +2,14 @@
 // height.  Multi-module histories run through the full ABCI cycle with recover()
 // around BeginBlock / DeliverTx / EndBlock; after every block every invariant
 // route registered with the crisis keeper (Kava's modules and bank, staking,
-// distribution, gov) is evaluated.
+// distribution, gov) is evaluated, plus the extended invariants of the world
+// package (index coherence, custody, the x/auction invariants that the module
+// never registers, hard interest factors, bep3 supply counters).
+//
+// The genesis parameters are drawn from wide valid ranges (world/config.go),
+// valid parameter changes are voted through the params committee mid-history
+// (world/params.go), and a set of directed scenario streams (scenarios.go)
+// drives the blocker branches that random histories reach rarely.
 package c02
 
 import (
@@ -11,19 +18,14 @@ import (
 	"encoding/json"
 	"fmt"
 	"os"
+	"regexp"
+	"sort"
 	"strings"
 	"time"
 
-	sdkmath "cosmossdk.io/math"
 	tmproto "github.com/cometbft/cometbft/proto/tendermint/types"
-	sdk "github.com/cosmos/cosmos-sdk/types"
 
-	upgradetypes "github.com/cosmos/cosmos-sdk/x/upgrade/types"
 	"github.com/kava-labs/kava/app"
-	cdptypes "github.com/kava-labs/kava/x/cdp/types"
-	committeetypes "github.com/kava-labs/kava/x/committee/types"
-	issuancetypes "github.com/kava-labs/kava/x/issuance/types"
-	pricefeedtypes "github.com/kava-labs/kava/x/pricefeed/types"
 	"kavaverif/drivers/world"
 )
 
@@ -66,13 +68,15 @@ func checkInvariants(tApp app.TestApp, height int64, t time.Time) (route, msg st
 	return "", ""
 }
 
+var digits = regexp.MustCompile(`[0-9]+`)
+
 func panicSig(p string) string {
 	p = strings.ToLower(p)
 	switch {
 	case strings.Contains(p, "debt is smaller than"):
 		return "beginblock-panic:cdp-auction-debt-exceeds-liquidator-debt"
 	case strings.Contains(p, "beginblock"):
-		w := strings.Fields(p)
+		w := strings.Fields(digits.ReplaceAllString(p, "N"))
 		if len(w) > 6 {
 			w = w[:6]
 		}
@@ -81,10 +85,15 @@ func panicSig(p string) string {
 	return "block-panic"
 }
 
+func isUpgradeHalt(p string) bool {
+	return strings.Contains(p, "UPGRADE") && strings.Contains(p, "NEEDED")
+}
+
 func runHistory(seed uint64, idx, nBlocks int, cnt *Counters) (*finding, int, int, []string) {
 	r := NewRng(seed, uint64(idx)+0xC02)
 	cfg := world.RandomConfig(r)
 	w := world.NewWorld(cfg, seed*1000+uint64(idx), cnt)
+	w.ParamChanges = true
 	A := w.Start(NewApp())
 	height, t := int64(2), world.Genesis0
 	nTx, okTx := 0, 0
@@ -92,7 +101,7 @@ func runHistory(seed uint64, idx, nBlocks int, cnt *Counters) (*finding, int, in
 	for b := 0; b < nBlocks; b++ {
 		w.Height, w.Time = height, t
 		txs, descs := w.GenBlockTxs(r, A, 1+r.Intn(7))
-		ra := world.Deliver(A, height, txs)
+		ra := world.DeliverC(A, height, txs, cnt)
 		for i, tr := range ra.Txs {
 			nTx++
 			if tr.Code == 0 {
@@ -100,6 +109,9 @@ func runHistory(seed uint64, idx, nBlocks int, cnt *Counters) (*finding, int, in
 				cnt.Inc("tx-ok:" + descs[i])
 			} else {
 				cnt.Inc("tx-fail:" + descs[i])
+				if dbg := os.Getenv("C02_DEBUG_FAIL"); dbg != "" && strings.HasPrefix(descs[i], dbg) {
+					cnt.Inc("dbg:" + descs[i] + ":" + tr.Log)
+				}
 			}
 			if len(sample) < 10 {
 				sample = append(sample, fmt.Sprintf("h%d %s code=%d", height, descs[i], tr.Code))
@@ -111,10 +123,11 @@ func runHistory(seed uint64, idx, nBlocks int, cnt *Counters) (*finding, int, in
 		if route, msg := checkInvariants(A, height, t); route != "" {
 			return &finding{height, "invariant-broken:" + route, msg, descs, cfg}, nTx, okTx, sample
 		}
+		probe := world.TakeProbe(A, height, t)
 		height++
-		t = t.Add(world.NextGap(r))
-		if _, p := world.Begin(A, height, t); p != "" {
-			if strings.Contains(p, "UPGRADE") && strings.Contains(p, "NEEDED") {
+		t = t.Add(world.NextGapAware(r, A, height-1, t))
+		if _, p := world.BeginC(A, height, t, cnt); p != "" {
+			if isUpgradeHalt(p) {
 				// an enacted software-upgrade plan halts the chain at its height by design
 				// (governance decision, binary switch); not a user-caused halt
 				cnt.Inc("history-ended-by-enacted-upgrade-plan")
@@ -122,182 +135,42 @@ func runHistory(seed uint64, idx, nBlocks int, cnt *Counters) (*finding, int, in
 			}
 			return &finding{height, panicSig(p), p, descs, cfg}, nTx, okTx, sample
 		}
+		probe.After(A, height, t, cnt)
 		cnt.Inc("blocks")
 	}
 	return nil, nTx, okTx, sample
 }
 
-// scenarioCdpTwoDeposits: a CDP with two equal deposits (owner + third party) and an odd
-// debt is liquidated by the begin blocker after a price drop.
-func scenarioCdpTwoDeposits(seed uint64) *finding {
-	cfg := world.RandomConfig(NewRng(seed, 1))
-	cfg.LiqRatioXrp, cfg.XrpPrice, cfg.StabilityFee = "1.5", "1.0", "1.0"
-	w := world.NewWorld(cfg, seed, NewCounters())
-	A := w.Start(NewApp())
-	height, t := int64(2), world.Genesis0
-	w.Height, w.Time = height, t
-	m1 := cdptypes.NewMsgCreateCDP(w.Addrs[0], sdk.NewInt64Coin("xrp", 20_000_000), sdk.NewInt64Coin("usdx", 10_000_003), "xrp-a")
-	m2 := cdptypes.NewMsgDeposit(w.Addrs[0], w.Addrs[1], sdk.NewInt64Coin("xrp", 20_000_000), "xrp-a")
-	txs := [][]byte{w.Sign(A, 0, &m1), w.Sign(A, 1, &m2)}
-	ra := world.Deliver(A, height, txs)
-	if ra.Panic != "" || ra.Txs[0].Code != 0 || ra.Txs[1].Code != 0 {
-		return &finding{height, "scenario-setup-failed", fmt.Sprintf("%+v", ra), nil, cfg}
-	}
-	height++
-	t = t.Add(6 * time.Second)
-	if _, p := world.Begin(A, height, t); p != "" {
-		return &finding{height, panicSig(p), p, nil, cfg}
-	}
-	w.Height, w.Time = height, t
-	var ptx [][]byte
-	for _, o := range w.Oracles {
-		ptx = append(ptx, w.Sign(A, o, pricefeedtypes.NewMsgPostPrice(w.Addrs[o].String(), "xrp:usd", sdk.MustNewDecFromStr("0.3"), t.Add(time.Hour))))
-	}
-	rb := world.Deliver(A, height, ptx)
-	if rb.Panic != "" {
-		return &finding{height, "deliver-or-endblock-panic", rb.Panic, nil, cfg}
-	}
-	height++
-	t = t.Add(6 * time.Second)
-	if _, p := world.Begin(A, height, t); p != "" {
-		return &finding{height, panicSig(p), p, []string{"cdp.create xrp-a 20000000xrp/10000003usdx by user0", "cdp.deposit 20000000xrp by user1", "pricefeed.post xrp:usd 0.3 by all oracles", "next BeginBlock"}, cfg}
-	}
-	if route, msg := checkInvariants(A, height, t); route != "" {
-		return &finding{height, "invariant-broken:" + route, msg, nil, cfg}
-	}
-	_ = sdkmath.ZeroInt
-	return nil
-}
-
-// scenarioIssuanceSeizeLocked: the asset owner blocks an address whose balance of the
-// issued denom is partly locked by a vesting schedule; the next begin blocker seizes.
-func scenarioIssuanceSeizeLocked(seed uint64) *finding {
-	cfg := world.RandomConfig(NewRng(seed, 2))
-	w := world.NewWorld(cfg, seed, NewCounters())
-	A := w.Start(NewApp())
-	height, t := int64(2), world.Genesis0
-	w.Height, w.Time = height, t
-	vesting := w.Addrs[world.NUsers-1]
-	m := issuancetypes.NewMsgBlockAddress(w.Addrs[1].String(), "busd", vesting.String())
-	ra := world.Deliver(A, height, [][]byte{w.Sign(A, 1, m)})
-	if ra.Panic != "" || ra.Txs[0].Code != 0 {
-		return &finding{height, "scenario-setup-failed", fmt.Sprintf("%+v", ra), nil, cfg}
-	}
-	height++
-	t = t.Add(6 * time.Second)
-	if _, p := world.Begin(A, height, t); p != "" {
-		sig := panicSig(p)
-		if strings.Contains(p, "busd") {
-			sig = "beginblock-panic:issuance-seize-locked-vesting-coins"
-		}
-		return &finding{height, sig, p, []string{"issuance.block busd <periodic vesting account with locked busd> by the asset owner", "next BeginBlock"}, cfg}
-	}
-	if route, msg := checkInvariants(A, height, t); route != "" {
-		return &finding{height, "invariant-broken:" + route, msg, nil, cfg}
-	}
-	return nil
-}
-
-// stepBlock delivers txs at the current height, checks invariants, then begins the next block.
-func stepBlock(A app.TestApp, w *world.World, height *int64, t *time.Time, cfg world.Config, txs [][]byte, gap time.Duration, needOK bool) *finding {
-	w.Height, w.Time = *height, *t
-	ra := world.Deliver(A, *height, txs)
-	if ra.Panic != "" {
-		return &finding{*height, "deliver-or-endblock-panic", ra.Panic, nil, cfg}
-	}
-	if needOK {
-		for i, tr := range ra.Txs {
-			if tr.Code != 0 {
-				return &finding{*height, "scenario-setup-failed", fmt.Sprintf("tx %d: %s", i, tr.Log), nil, cfg}
-			}
-		}
-	}
-	if route, msg := checkInvariants(A, *height, *t); route != "" {
-		return &finding{*height, "invariant-broken:" + route, msg, nil, cfg}
-	}
-	*height++
-	*t = t.Add(gap)
-	if _, p := world.Begin(A, *height, *t); p != "" {
-		return &finding{*height, panicSig(p), p, nil, cfg}
-	}
-	return nil
-}
-
-// scenarioStaleCommitteeProposal: an upgrade plan for a height that has passed by the time
-// the deciding votes arrive; the committee begin blocker must close it, not halt the chain.
-func scenarioStaleCommitteeProposal(seed uint64) *finding {
-	cfg := world.RandomConfig(NewRng(seed, 3))
-	w := world.NewWorld(cfg, seed, NewCounters())
-	A := w.Start(NewApp())
-	height, t := int64(2), world.Genesis0
-	w.Height, w.Time = height, t
-	plan := upgradetypes.NewSoftwareUpgradeProposal("up", "plan", upgradetypes.Plan{Name: "stale-plan", Height: 4})
-	m, err := committeetypes.NewMsgSubmitProposal(plan, w.Addrs[0], 1)
-	if err != nil {
-		return &finding{height, "scenario-setup-failed", err.Error(), nil, cfg}
-	}
-	if f := stepBlock(A, w, &height, &t, cfg, [][]byte{w.Sign(A, 0, m)}, 6*time.Second, true); f != nil {
-		return f
-	}
-	for i := 0; i < 3; i++ { // heights 3,4,5 pass without votes
-		if f := stepBlock(A, w, &height, &t, cfg, nil, 6*time.Second, false); f != nil {
-			return f
-		}
-	}
-	w.Height, w.Time = height, t
-	votes := [][]byte{
-		w.Sign(A, 0, committeetypes.NewMsgVote(w.Addrs[0], 1, committeetypes.VOTE_TYPE_YES)),
-		w.Sign(A, w.Member, committeetypes.NewMsgVote(w.Addrs[w.Member], 1, committeetypes.VOTE_TYPE_YES)),
-	}
-	if f := stepBlock(A, w, &height, &t, cfg, votes, 6*time.Second, true); f != nil {
-		if strings.HasPrefix(f.What, "beginblock-panic") {
-			f.What = "beginblock-panic:committee-stale-proposal"
-			f.Txs = []string{"committee.submit upgrade plan height 4 at height 2", "3 empty blocks", "both members vote yes at height 6", "next BeginBlock"}
-		}
-		return f
-	}
-	return stepBlock(A, w, &height, &t, cfg, nil, 6*time.Second, false)
-}
-
-// scenarioCdpDepositorWithdrawsAll: a third-party depositor withdraws exactly its whole
-// deposit, then the CDP is liquidated by the begin blocker after a price drop.
-func scenarioCdpDepositorWithdrawsAll(seed uint64) *finding {
-	cfg := world.RandomConfig(NewRng(seed, 4))
-	cfg.LiqRatioXrp, cfg.XrpPrice, cfg.StabilityFee = "1.5", "1.0", "1.0"
-	w := world.NewWorld(cfg, seed, NewCounters())
-	A := w.Start(NewApp())
-	height, t := int64(2), world.Genesis0
-	w.Height, w.Time = height, t
-	m1 := cdptypes.NewMsgCreateCDP(w.Addrs[0], sdk.NewInt64Coin("xrp", 40_000_000), sdk.NewInt64Coin("usdx", 20_000_001), "xrp-a")
-	m2 := cdptypes.NewMsgDeposit(w.Addrs[0], w.Addrs[1], sdk.NewInt64Coin("xrp", 5_000_000), "xrp-a")
-	if f := stepBlock(A, w, &height, &t, cfg, [][]byte{w.Sign(A, 0, &m1), w.Sign(A, 1, &m2)}, 6*time.Second, true); f != nil {
-		return f
-	}
-	w.Height, w.Time = height, t
-	m3 := cdptypes.NewMsgWithdraw(w.Addrs[0], w.Addrs[1], sdk.NewInt64Coin("xrp", 5_000_000), "xrp-a")
-	if f := stepBlock(A, w, &height, &t, cfg, [][]byte{w.Sign(A, 1, &m3)}, 6*time.Second, true); f != nil {
-		return f
-	}
-	w.Height, w.Time = height, t
-	var ptx [][]byte
-	for _, o := range w.Oracles {
-		ptx = append(ptx, w.Sign(A, o, pricefeedtypes.NewMsgPostPrice(w.Addrs[o].String(), "xrp:usd", sdk.MustNewDecFromStr("0.3"), t.Add(time.Hour))))
-	}
-	if f := stepBlock(A, w, &height, &t, cfg, ptx, 6*time.Second, true); f != nil {
-		return f
-	}
-	return stepBlock(A, w, &height, &t, cfg, nil, 6*time.Second, false)
-}
-
-var scenarios = map[string]func(uint64) *finding{
-	"committee-stale-upgrade-proposal": scenarioStaleCommitteeProposal,
-	"cdp-depositor-withdraws-all":      scenarioCdpDepositorWithdrawsAll,
-	"issuance-seize-locked-vesting":    scenarioIssuanceSeizeLocked,
-	"cdp-two-deposits-odd-debt":        scenarioCdpTwoDeposits,
-}
-
 func mkFailure(idx int, f *finding, h hist) Failure {
 	return Failure{History: idx, Step: int(f.Height), Predicate: "blocks-process-and-invariants-hold", Signature: f.What, Detail: string(MustJSON(f)), Replay: MustJSON(h)}
+}
+
+// gates are the blocker branches / case splits a run is expected to exercise; the ones a
+// run did not reach are reported as the quality gate.
+var gates = []string{
+	"begin:auction_start:surplus", "begin:auction_start:debt", "begin:auction_start:collateral",
+	"branch:cdp-net-surplus-and-debt", "begin:cdp_liquidation", "tx:cdp_liquidation", "tx:hard_liquidation",
+	"branch:hard-market-added-to-store", "branch:hard-market-removed-from-store",
+	"branch:hard-market-removed-with-open-borrows", "branch:hard-market-readded-with-history",
+	"branch:auction-closed:collateral-forward:with-bids", "branch:auction-closed:collateral-reverse:with-bids",
+	"branch:auction-closed:surplus:with-bids", "branch:auction-closed:debt:with-bids", "branch:auction-closed-at-max-end-time",
+	"begin:proposal_close:Passed", "begin:proposal_close:Invalid", "begin:proposal_close:Failed",
+	"begin:swaps_expired", "tx:claim_atomic_swap", "tx:refund_atomic_swap",
+	"branch:incentive-period-ended-in-block-gap", "branch:incentive-claim-end-passed", "tx:claim_reward",
+	"begin:kavadist", "begin:staking_rewards_paid", "begin:inflation_stop", "end:market_price_updated",
+	"tx-ok:committee.submit.param:hard-remove-market", "tx-ok:committee.submit.param:hard-readd-market",
+	"tx-ok:committee.submit.param:cdp-collateral", "tx-ok:committee.submit.param:cdp-auction-thresholds",
+	"tx-ok:committee.submit.param:incentive-periods", "tx-ok:committee.submit.param:pricefeed-toggle-market",
+	"tx-ok:committee.submit.param:auction-durations",
+}
+
+func scenarioNames() []string {
+	names := make([]string, 0, len(scenarios))
+	for n := range scenarios {
+		names = append(names, n)
+	}
+	sort.Strings(names)
+	return names
 }
 
 func run(o Opts) (*Result, error) {
@@ -306,7 +179,7 @@ func run(o Opts) (*Result, error) {
 		nBlocks = 25
 	}
 	res := &Result{Property: "C02", Seed: o.Seed,
-		Rule: fmt.Sprintf("multi-module histories of %d blocks (1-7 signed txs each over cdp, hard, swap, savings, earn, bep3, pricefeed, auction, incentive, staking, liquid, gov, committee, issuance, bank; varying prices and block gaps 1ns..20d) through BeginBlock/DeliverTx/EndBlock/Commit with every crisis invariant route evaluated after every block, plus directed scenarios; non-trivial when at least 5 transactions succeeded; distinct by (seed, history index)", nBlocks)}
+		Rule: fmt.Sprintf("multi-module histories of %d blocks (1-7 signed txs each over cdp, hard, swap, savings, earn, bep3, pricefeed, auction, incentive, staking, liquid, gov, committee, issuance, bank; module parameters drawn from wide valid ranges; valid parameter changes voted through the params committee mid-history; varying prices and block gaps 1ns..20d) through BeginBlock/DeliverTx/EndBlock/Commit with every crisis invariant route and the extended invariants evaluated after every block, plus %d directed scenario streams; non-trivial when at least 5 transactions succeeded; distinct by (seed, history index)", nBlocks, len(scenarios))}
 	cnt := NewCounters()
 	if o.Replay != "" {
 		bz, err := os.ReadFile(o.Replay)
@@ -319,7 +192,11 @@ func run(o Opts) (*Result, error) {
 		}
 		res.Histories = 1
 		if h.Scenario != "" {
-			if f := scenarios[h.Scenario](h.Seed); f != nil {
+			sc, ok := scenarios[h.Scenario]
+			if !ok {
+				return nil, fmt.Errorf("unknown scenario %q", h.Scenario)
+			}
+			if f := sc(h.Seed, cnt); f != nil {
 				res.Failures = append(res.Failures, mkFailure(-1, f, h))
 			}
 			res.Evaluations = 1
@@ -336,11 +213,31 @@ func run(o Opts) (*Result, error) {
 		res.Counters = cnt.Map()
 		return res, nil
 	}
-	for _, name := range SortedKeys(map[string]int{"cdp-two-deposits-odd-debt": 1, "issuance-seize-locked-vesting": 1, "committee-stale-upgrade-proposal": 1, "cdp-depositor-withdraws-all": 1}) {
-		if f := scenarios[name](o.Seed); f != nil {
-			res.Failures = append(res.Failures, mkFailure(-1, f, hist{Seed: o.Seed, Idx: -1, Scenario: name}))
+	// directed scenario streams: each fixed shape is run with a few PRNG draws of its amounts / timings
+	names := scenarioNames()
+	reps := 3
+	if o.Tier == "thorough" {
+		reps = 12
+	}
+	type sjob struct {
+		name string
+		seed uint64
+	}
+	var jobs []sjob
+	for _, name := range names {
+		for k := 0; k < reps; k++ {
+			jobs = append(jobs, sjob{name, o.Seed + uint64(k)*1_000_003})
 		}
-		cnt.Inc("scenario:" + name)
+	}
+	sres := make([]*finding, len(jobs))
+	ParallelFor(len(jobs), o.Workers, func(i int) {
+		sres[i] = scenarios[jobs[i].name](jobs[i].seed, cnt)
+		cnt.Inc("scenario:" + jobs[i].name)
+	})
+	for i, f := range sres {
+		if f != nil {
+			res.Failures = append(res.Failures, mkFailure(-1, f, hist{Seed: jobs[i].seed, Idx: -1, Scenario: jobs[i].name}))
+		}
 	}
 	type out struct {
 		f       *finding
@@ -362,9 +259,19 @@ func run(o Opts) (*Result, error) {
 			res.Samples = append(res.Samples, map[string]any{"seed": o.Seed, "history": i, "blocks": nBlocks, "first_txs": ot.sample})
 		}
 		if ot.f != nil {
-			res.Failures = append(res.Failures, mkFailure(i, ot.f, hist{Seed: o.Seed, Idx: i, Blocks: nBlocks}))
+			// the generator is deterministic on prefixes: the blocks up to the failing height reproduce it
+			nb := int(ot.f.Height) - 1
+			if nb > nBlocks || nb < 1 {
+				nb = nBlocks
+			}
+			res.Failures = append(res.Failures, mkFailure(i, ot.f, hist{Seed: o.Seed, Idx: i, Blocks: nb}))
 		}
 	}
 	res.Counters = cnt.Map()
+	for _, g := range gates {
+		if res.Counters[g] == 0 {
+			res.QualityGate = append(res.QualityGate, g)
+		}
+	}
 	return res, nil
 }
